@@ -179,7 +179,10 @@ def run_path(contract, world, prefix, compare_spec=True, forker=None):
                 hook = None
                 if contract.on_yield is not None:
                     hook = (lambda c_: lambda it, env, v: c_.on_yield(it, env, v, args))(contract)
-                body_res = interp.call_function(node, Env(None, dict(getattr(contract, 'closure_env', None) or {})),
+                cenv = getattr(contract, 'closure_env', None) or {}
+                if getattr(contract, 'closure_env_fn', None) is not None:
+                    cenv = contract.closure_env_fn(ex)
+                body_res = interp.call_function(node, Env(None, dict(cenv)),
                                                 list(args), dict(kwargs), q,
                                                 loops=contract.loops, on_yield=hook)
             except PyRaise as e:
